@@ -14,18 +14,18 @@ Proof.
   intros pnl a b. unfold mkTAnd.
   destruct (is_dead a) eqn:Ea.
   - apply is_dead_spec in Ea. subst a. rewrite d_Emp_dead.
-    revert pnl b. induction s as [|c s IH]; intros pnl b; cbn; [reflexivity|].
-    unfold mkTAnd. cbn. symmetry. apply d_Emp_dead.
+    revert pnl b. induction s as [|c s IH]; intros pnl b; cbn [trun tnul nul andb]; [reflexivity|].
+    rewrite td_and. unfold mkTAnd. cbn. symmetry. apply d_Emp_dead.
   - destruct (is_dead b) eqn:Eb; [|reflexivity].
     apply is_dead_spec in Eb. subst b. rewrite d_Emp_dead.
-    revert pnl a Ea. induction s as [|c s IH]; intros pnl a Ea; cbn; [rewrite andb_false_r; reflexivity|].
-    unfold mkTAnd. cbn. destruct (is_dead (td pnl c a)); symmetry; apply d_Emp_dead.
+    revert pnl a Ea. induction s as [|c s IH]; intros pnl a Ea; cbn [trun tnul nul]; [rewrite andb_false_r; reflexivity|].
+    rewrite td_and. unfold mkTAnd. cbn. destruct (is_dead (td pnl c a)); symmetry; apply d_Emp_dead.
 Qed.
 
 Lemma trun_and s : forall pnl a b, trun pnl (TAnd a b) s = trun pnl a s && trun pnl b s.
 Proof.
-  induction s as [|c s IH]; intros pnl a b; cbn; [reflexivity|].
-  rewrite trun_mkTAnd. apply IH.
+  induction s as [|c s IH]; intros pnl a b; cbn [trun tnul]; [reflexivity|].
+  rewrite td_and, trun_mkTAnd. apply IH.
 Qed.
 
 Lemma trun_not s : forall pnl a, trun pnl (TNot a) s = negb (trun pnl a s).
@@ -46,25 +46,65 @@ Proof.
       rewrite accepts_and, IH. reflexivity.
 Qed.
 
+Lemma accepts_weaken Gs s : accepts (gtop Gs) s = true -> accepts (weaken Gs) s = true.
+Proof.
+  unfold gtop, weaken. rewrite !accepts_all, !forallb_forall. intros H t Ht.
+  apply filter_In in Ht as [Ht _]. apply H. exact Ht.
+Qed.
+
+Lemma accepts_relaxed CL atoms fuel Gs Rs s :
+  decide_empty CL atoms fuel (TAnd (weaken Gs) (TNot (t_all (map t_full Rs)))) = true ->
+  all_bytes s = true -> accepts (gtop Gs) s = true -> accepts (relaxed Gs Rs) s = true.
+Proof.
+  intros H Hs HG. pose proof (decide_empty_sound _ _ _ _ H s Hs) as E.
+  rewrite accepts_and, accepts_not, (accepts_weaken _ _ HG) in E. cbn in E. apply Bool.negb_false_iff in E.
+  unfold relaxed. rewrite accepts_all, forallb_app. rewrite accepts_all in E. rewrite E. cbn [andb].
+  unfold gtop in HG. rewrite accepts_all in HG. rewrite forallb_forall in HG. apply forallb_forall.
+  intros t Ht. apply filter_In in Ht as [Ht _]. apply HG. exact Ht.
+Qed.
+
+Lemma empty_with_sound CL atoms fuel Gs Rs t s :
+  empty_with CL atoms fuel Gs Rs t = true -> all_bytes s = true -> accepts (gtop Gs) s = true -> accepts t s = false.
+Proof.
+  unfold empty_with. intros H Hs HG.
+  destruct (decide_empty CL atoms fuel (TAnd (weaken Gs) t)) eqn:H1.
+  - pose proof (decide_empty_sound _ _ _ _ H1 s Hs) as E. rewrite accepts_and in E.
+    rewrite (accepts_weaken _ _ HG) in E. exact E.
+  - destruct Rs as [|r0 Rs'].
+    + pose proof (decide_empty_sound _ _ _ _ H s Hs) as E. rewrite accepts_and in E.
+      rewrite HG in E. exact E.
+    + destruct (decide_empty CL atoms fuel (TAnd (weaken Gs) (TNot (t_all (map t_full (r0 :: Rs')))))) eqn:H2.
+      * destruct (decide_empty CL atoms fuel (TAnd (relaxed Gs (r0 :: Rs')) t)) eqn:H3.
+        -- pose proof (accepts_relaxed _ _ _ _ _ s H2 Hs HG) as HR.
+           pose proof (decide_empty_sound _ _ _ _ H3 s Hs) as E. rewrite accepts_and, HR in E. exact E.
+        -- pose proof (decide_empty_sound _ _ _ _ H s Hs) as E. rewrite accepts_and in E.
+           rewrite HG in E. exact E.
+      * pose proof (decide_empty_sound _ _ _ _ H s Hs) as E. rewrite accepts_and in E.
+        rewrite HG in E. exact E.
+Qed.
+
 Theorem fact_check_sound CL atoms fuel f : fact_check CL atoms fuel f = true -> fact_holds f.
 Proof.
-  destruct f as [Gm l pos|Gm r]; cbn [fact_check fact_holds].
+  destruct f as [Gs Rs l pos|Gs Rs r]; cbn [fact_check fact_holds].
   - destruct pos; intros H s Hs HG; unfold level_matches, level_top; rewrite accepts_all.
     + rewrite forallb_forall in H. apply forallb_forall. intros c Hc.
-      pose proof (decide_empty_sound _ _ _ _ (H c Hc) s Hs) as E.
-      rewrite accepts_and, accepts_not, HG in E. cbn in E. apply Bool.negb_false_iff in E. exact E.
-    + apply Bool.orb_true_iff in H as [H|H].
-      * apply existsb_exists in H as [c [Hc Hd]].
-        pose proof (decide_empty_sound _ _ _ _ Hd s Hs) as E.
-        rewrite accepts_and, HG in E. cbn in E.
+      pose proof (empty_with_sound _ _ _ _ _ _ s (H c Hc) Hs HG) as E.
+      rewrite accepts_not in E. apply Bool.negb_false_iff in E. exact E.
+    + destruct (empty_with CL atoms fuel Gs Rs (t_search (l_pat l))) eqn:H1.
+      * pose proof (empty_with_sound _ _ _ _ _ _ s H1 Hs HG) as E.
         destruct (forallb (fun t => accepts t s) (level_conjs l)) eqn:F; [|reflexivity].
-        rewrite forallb_forall in F. rewrite (F c Hc) in E. discriminate.
-      * pose proof (decide_empty_sound _ _ _ _ H s Hs) as E.
-        rewrite accepts_and, HG in E. cbn in E. unfold level_top in E. rewrite accepts_all in E. exact E.
+        rewrite forallb_forall in F.
+        rewrite (F (t_search (l_pat l))) in E; [discriminate|].
+        unfold level_conjs. apply in_or_app. right. left. reflexivity.
+      * pose proof (empty_with_sound _ _ _ _ _ _ s H Hs HG) as E.
+        unfold level_top in E. rewrite accepts_all in E. exact E.
   - intros H s Hs HG. unfold search_b.
-    pose proof (decide_empty_sound _ _ _ _ H s Hs) as E.
-    rewrite accepts_and, accepts_not, HG in E. cbn in E. apply Bool.negb_false_iff in E. exact E.
+    pose proof (empty_with_sound _ _ _ _ _ _ s H Hs HG) as E.
+    rewrite accepts_not in E. apply Bool.negb_false_iff in E. exact E.
 Qed.
+
+Theorem fact_check_auto_sound fuel f : fact_check_auto fuel f = true -> fact_holds f.
+Proof. unfold fact_check_auto. apply fact_check_sound. Qed.
 
 (* equality tests reflect equality *)
 Lemma beq_eq a : forall b, beq a b = true -> a = b.
@@ -83,17 +123,28 @@ Proof.
   apply andb_prop in H as [H H3]. apply andb_prop in H as [H1 H2].
   apply String.eqb_eq in H1. apply re_eqb_eq in H2. apply lbeq_eq in H3. subst. reflexivity.
 Qed.
+Lemma ltop_eqb_eq a : forall b, ltop_eqb a b = true -> a = b.
+Proof.
+  induction a as [|x a IH]; intros [|y b] H; cbn in H; try discriminate; [reflexivity|].
+  apply andb_prop in H as [H1 H2]. apply top_eqb_eq in H1. subst. f_equal. auto.
+Qed.
+Lemma lre_eqb_eq a : forall b, lre_eqb a b = true -> a = b.
+Proof.
+  induction a as [|x a IH]; intros [|y b] H; cbn in H; try discriminate; [reflexivity|].
+  apply andb_prop in H as [H1 H2]. apply re_eqb_eq in H1. subst. f_equal. auto.
+Qed.
 Lemma fact_eqb_eq a b : fact_eqb a b = true -> a = b.
 Proof.
-  destruct a as [g1 l1 p1|g1 r1], b as [g2 l2 p2|g2 r2]; cbn; intros H; try discriminate.
-  - apply andb_prop in H as [H H3]. apply andb_prop in H as [H1 H2].
-    apply top_eqb_eq in H1. apply level_eqb_eq in H2. apply Bool.eqb_prop in H3. subst. reflexivity.
-  - apply andb_prop in H as [H1 H2]. apply top_eqb_eq in H1. apply re_eqb_eq in H2. subst. reflexivity.
+  destruct a as [g1 h1 l1 p1|g1 h1 r1], b as [g2 h2 l2 p2|g2 h2 r2]; cbn; intros H; try discriminate.
+  - apply andb_prop in H as [H H3]. apply andb_prop in H as [H H2]. apply andb_prop in H as [H1 H0].
+    apply ltop_eqb_eq in H1. apply lre_eqb_eq in H0. apply level_eqb_eq in H2. apply Bool.eqb_prop in H3. subst. reflexivity.
+  - apply andb_prop in H as [H H2]. apply andb_prop in H as [H1 H0].
+    apply ltop_eqb_eq in H1. apply lre_eqb_eq in H0. apply re_eqb_eq in H2. subst. reflexivity.
 Qed.
 
-Lemma classify_from_facts tbl Gm cls :
-  (forall l, In l tbl -> fact_holds (FLevel Gm l (in_class cls l))) ->
-  forall s, all_bytes s = true -> accepts Gm s = true -> classify tbl s = expected tbl cls.
+Lemma classify_from_facts tbl Gm Rs cls :
+  (forall l, In l tbl -> fact_holds (FLevel Gm Rs l (in_class cls l))) ->
+  forall s, all_bytes s = true -> accepts (gtop Gm) s = true -> classify tbl s = expected tbl cls.
 Proof.
   unfold classify, expected. intros H s Hs HG. f_equal.
   induction tbl as [|l tbl IH]; [reflexivity|]. cbn [filter].
@@ -102,8 +153,8 @@ Proof.
 Qed.
 
 (* all decided facts hold; an obligation all of whose facts are decided holds *)
-Theorem obligations_sound CL atoms fuel decided obs :
-  forallb (fact_check CL atoms fuel) decided = true ->
+Theorem obligations_sound fuel decided obs :
+  forallb (fact_check_auto fuel) decided = true ->
   forallb (ob_covered decided) obs = true ->
   forall o, In o obs -> ob_holds o.
 Proof.
@@ -111,11 +162,20 @@ Proof.
   unfold ob_covered in Hcov. rewrite forallb_forall in Hcov.
   assert (Hf : forall f, In f (ob_facts o) -> fact_holds f).
   { intros f Hin. specialize (Hcov f Hin). apply existsb_exists in Hcov as [g [Hg He]].
-    apply fact_eqb_eq in He. subst g. apply (fact_check_sound CL atoms fuel). apply Hdec. exact Hg. }
+    apply fact_eqb_eq in He. subst g. apply (fact_check_auto_sound fuel). apply Hdec. exact Hg. }
   unfold ob_holds. intros s Hs. split.
-  - apply classify_from_facts; [|exact Hs]. intros l Hl. apply Hf. unfold ob_facts.
+  - apply (classify_from_facts _ _ (o_GR o)); [|exact Hs]. intros l Hl. apply Hf. unfold ob_facts.
     apply in_or_app. left. apply in_map_iff. exists l. split; [reflexivity|exact Hl].
-  - assert (Hd : fact_holds (FDetect (o_D o) (o_combined o))).
+  - assert (Hd : fact_holds (FDetect (o_D o) (o_DR o) (o_combined o))).
     { apply Hf. unfold ob_facts. apply in_or_app. right. left. reflexivity. }
     exact (Hd s Hs).
+Qed.
+
+(* assembling separately compiled per-fact lemmas *)
+Lemma forallb_nth (f : fact -> bool) (d : fact) : forall (l : list fact),
+  (forall i, (i < length l)%nat -> f (nth i l d) = true) -> forallb f l = true.
+Proof.
+  induction l as [|x l IH]; intros H; [reflexivity|]. cbn [forallb].
+  pose proof (H O (PeanoNat.Nat.lt_0_succ _)) as H0. cbn [nth] in H0. rewrite H0. cbn [andb].
+  apply IH. intros i Hi. apply (H (S i)). cbn [length]. apply -> PeanoNat.Nat.succ_lt_mono. exact Hi.
 Qed.
